@@ -236,7 +236,7 @@ def _from_parts_contract(it, fv, args, kwargs):
     return from_parts_abs(Py.list(parts), ue, ud)
 
 
-def _rel_setup(ctx, marker):
+def _rel_setup(ctx, marker, token_kind="int"):
     origin, index = ctx.int("origin"), ctx.int("index")
     base = ctx.seq("base_parts")
     suffix = ctx.seq("suffix_parts")
@@ -244,7 +244,10 @@ def _rel_setup(ctx, marker):
     n = z3.Length(base) - origin
     tok = base[n - 1]
     # scope of the statement: an offset applies to a final array index
-    ctx.require(z3.Implies(z3.And(index != 0, n > 0), z3.Or(z3.And(Py.is_int(tok), Py.i(tok) >= 0), z3.And(Py.is_str(tok), z3.InRe(Py.s(tok), S.RE_CANON_NAT)))))
+    if token_kind == "int":
+        ctx.require(z3.Implies(z3.And(index != 0, n > 0), z3.And(Py.is_int(tok), Py.i(tok) >= 0)))
+    else:
+        ctx.require(z3.Implies(z3.And(index != 0, n > 0), z3.And(Py.is_str(tok), z3.InRe(Py.s(tok), S.RE_CANON_NAT))))
     ctx.require(z3.Implies(n > 0, z3.Or(Py.is_int(tok), Py.is_str(tok))))
 
     def mk(it):
@@ -255,10 +258,15 @@ def _rel_setup(ctx, marker):
     return mk, origin, index, base, suffix
 
 
-def _register_rel(marker):
-    @contract(f"RelativeJSONPointer.to[{'#' if marker else 'pointer'}]==draft", ("C16",), ["jsonpath.pointer:RelativeJSONPointer.to", "jsonpath.pointer:RelativeJSONPointer._int_like"])
-    def _c(ctx, marker=marker):
-        mk, origin, index, base, suffix = _rel_setup(ctx, marker)
+def _register_rel(marker, token_kind):
+    @contract(
+        f"RelativeJSONPointer.to[{'#' if marker else 'pointer'},{token_kind} index token]==draft",
+        ("C16",),
+        ["jsonpath.pointer:RelativeJSONPointer.to", "jsonpath.pointer:RelativeJSONPointer._int_like"],
+        tier="quick" if token_kind == "int" else "thorough",  # string index tokens: minutes of regex reasoning inside the sequence theory
+    )
+    def _c(ctx, marker=marker, token_kind=token_kind):
+        mk, origin, index, base, suffix = _rel_setup(ctx, marker, token_kind)
 
         def code(it):
             rel, bp = mk(it)
@@ -271,5 +279,6 @@ def _register_rel(marker):
         ctx.equiv("RelativeJSONPointer.to", code, spec)
 
 
-_register_rel(True)
-_register_rel(False)
+for _tk in ("int", "str"):
+    _register_rel(True, _tk)
+    _register_rel(False, _tk)
